@@ -887,3 +887,258 @@ def namespace_func(ns, op):
     for part in op.npname.split("."):
         obj = getattr(obj, part)
     return obj
+
+
+# ---------------------------------------------------------------------------
+# C11: numeric mirror functions (meaningful on constant polynomials)
+# ---------------------------------------------------------------------------
+
+class ConstGen(G.Gen):
+    """Generator whose polynomials are all constants (ties, negatives, zeros)."""
+
+    def poly(self, shape=None, names=None, kind=None, nterms=None, maxexp=3, via=None,
+             allow_views=True, dtype=None):
+        rng = self.rng
+        shape = self.shape() if shape is None else tuple(shape)
+        kind = rng.choice(["int", "int", "float"]) if kind in (None, "complex") else kind
+        pool = {"int": [0, 1, -1, 2, 2, 3, -2, 3], "float": [0.0, 0.5, -1.5, 2.0, 2.0, 0.5, -1.5, 3.25],
+                "bool": [True, False]}[kind]
+
+        def rec(dims):
+            if not dims:
+                return rng.choice(pool)
+            return [rec(dims[1:]) for _ in range(dims[0])]
+        spec = {"k": "poly", "names": ["q0"], "exps": [[0]], "coefs": [rec(list(shape))],
+                "kind": kind, "shape": list(shape), "via": "attrs", "const": True}
+        if allow_views and len(shape) >= 2 and rng.random() < 0.1:
+            spec["view"] = "T"
+        return spec
+
+
+def const_array(spec):
+    """Numeric array denoted by a constant operand spec."""
+    if spec["k"] == "poly":
+        dtype = spec.get("dtype") or G.DTYPE_OF_KIND[spec["kind"]]
+        return numpy.array(G.unj_nested(spec["coefs"][0]), dtype=dtype).reshape(spec["shape"])
+    obj = G.build(spec)
+    return obj
+
+
+def mirror(name, gen, call, method=None, npname=None, result="array"):
+    return Op(name, "mirror", gen, call, None, method=method, npname=npname, result=result)
+
+
+def _gen_one(mindim=0, maxdim=3, kind=None):
+    def gen(g):
+        return {"operands": [g.poly(shape=nd_shape(g, mindim=mindim, maxdim=maxdim), kind=kind)],
+                "kw": {}}
+    return gen
+
+
+def _gen_two(g):
+    base = nd_shape(g)
+    kind = g.rng.choice(["int", "int", "float"])
+    second = g.poly(shape=g.compatible_shape(base), kind=kind) if g.rng.random() < 0.7 \
+        else g.const_operand(shape=g.compatible_shape(base), kind=kind)
+    ops = [g.poly(shape=base, kind=kind), second]
+    if g.rng.random() < 0.3:
+        ops.reverse()
+    if ops[0]["k"] != "poly" and ops[1]["k"] != "poly":
+        ops[0] = g.poly(shape=base, kind=kind)
+    return {"operands": ops, "kw": {}}
+
+
+for _name in ("absolute", "ceil", "floor", "rint", "isfinite", "negative", "positive", "square"):
+    mirror(_name, _gen_one(), (lambda n: lambda ns, ops, kw: getattr(ns, n)(ops[0]))(_name))
+mirror("abs", _gen_one(), lambda ns, ops, kw: abs(ops[0]) if ns.__class__.__name__ != "NumpyNS"
+       else numpy.abs(ops[0]))
+
+
+def _gen_around(g):
+    case = _gen_one(kind="float")(g)
+    spec = case["operands"][0]
+    spec["coefs"] = [G.nested_map(lambda v: v * 1.2345678 + 0.05, spec["coefs"][0])]
+    case["kw"] = {"decimals": g.rng.choice([0, 1, 2, 3, -1])}
+    return case
+
+
+for _name in ("around", "round"):
+    mirror(_name, _gen_around,
+           (lambda n: lambda ns, ops, kw: getattr(ns, n)(ops[0], decimals=kw["decimals"]))(_name),
+           method=(lambda ops, kw: ops[0].round(kw["decimals"])) if _name == "round" else None)
+
+for _name in ("add", "subtract", "multiply", "less", "less_equal", "greater", "greater_equal",
+              "equal", "not_equal", "maximum", "minimum", "logical_and", "logical_or"):
+    mirror(_name, _gen_two, (lambda n: lambda ns, ops, kw: getattr(ns, n)(ops[0], ops[1]))(_name))
+
+
+def _gen_close(g):
+    case = _gen_two(g)
+    if g.rng.random() < 0.5:
+        # nearly equal second operand
+        first = case["operands"][0]
+        if first["k"] == "poly":
+            other = dict(first)
+            other["kind"] = "float"
+            other["coefs"] = [G.nested_map(lambda v: float(v) + g.rng.choice([0.0, 1e-9, 1e-3]),
+                                           first["coefs"][0])]
+            case["operands"] = [first, other]
+    case["kw"] = g.rng.choice([{}, {"rtol": 1e-2}, {"atol": 1e-2, "rtol": 0.0}])
+    return case
+
+
+mirror("isclose", _gen_close, lambda ns, ops, kw: ns.isclose(ops[0], ops[1], **kw))
+mirror("allclose", _gen_close, lambda ns, ops, kw: ns.allclose(ops[0], ops[1], **kw))
+
+
+def _gen_numdiv(g):
+    base = nd_shape(g)
+    kind = g.rng.choice(["int", "int", "float"])
+    a = g.poly(shape=base, kind=kind)
+    b = g.poly(shape=g.compatible_shape(base), kind=kind)
+    # no zero divisors
+    b["coefs"] = [G.nested_map(lambda v: v if v else (2 if kind == "int" else 2.0), b["coefs"][0])]
+    if g.rng.random() < 0.25:
+        b = {"k": "py", "v": g.rng.choice([2, 3, -2]) if kind == "int" else g.rng.choice([0.5, -2.0])}
+    return {"operands": [a, b], "kw": {}}
+
+
+for _name in ("floor_divide", "true_divide", "divide", "remainder", "mod"):
+    mirror(_name, _gen_numdiv,
+           (lambda n: lambda ns, ops, kw: getattr(ns, n)(ops[0], ops[1]))(_name))
+mirror("divmod", _gen_numdiv, lambda ns, ops, kw: ns.divmod(ops[0], ops[1]), result="tuple")
+
+
+def _gen_axis_reduce(keepdims=True, axis_tuple=False, mindim=0):
+    def gen(g):
+        shape = nd_shape(g, mindim=mindim)
+        kw = {}
+        ndim = len(shape)
+        if ndim and g.rng.random() < 0.7:
+            if axis_tuple and g.rng.random() < 0.3:
+                kw["axis"] = g.rng.sample(range(ndim), g.rng.randint(1, ndim))
+            else:
+                kw["axis"] = axis_of(g, ndim)
+        if keepdims and g.rng.random() < 0.35:
+            kw["keepdims"] = g.rng.choice([True, False])
+        return {"operands": [g.poly(shape=shape)], "kw": kw}
+    return gen
+
+
+for _name, _kd, _tuple in (("all", True, True), ("any", True, True), ("amax", True, False),
+                           ("amin", True, False), ("max", True, False), ("min", True, False),
+                           ("count_nonzero", True, True), ("argmax", False, False),
+                           ("argmin", False, False)):
+    mirror(_name, _gen_axis_reduce(keepdims=_kd, axis_tuple=_tuple),
+           (lambda n: lambda ns, ops, kw: getattr(ns, n)(ops[0], **_axis_kw(kw)))(_name),
+           method=(lambda n: lambda ops, kw: getattr(ops[0], n)(**_axis_kw(kw)))(_name)
+           if _name in ("all", "any", "max", "min") else None)
+
+mirror("nonzero", _gen_one(mindim=1), lambda ns, ops, kw: ns.nonzero(ops[0]), result="tuple",
+       method=lambda ops, kw: ops[0].nonzero())
+
+
+def _gen_creation(g):
+    shape = g.rng.choice([(), (2,), (2, 3), 3, (1,), (0,)])
+    kw = {"shape": list(shape) if isinstance(shape, tuple) else shape}
+    if g.rng.random() < 0.5:
+        kw["dtype"] = g.rng.choice(["int64", "float64", "bool", "int32"])
+    return {"operands": [], "kw": kw}
+
+
+for _name in ("ones", "zeros"):
+    mirror(_name, _gen_creation,
+           (lambda n: lambda ns, ops, kw: getattr(ns, n)(_shape_arg(kw), **kwget(kw, "dtype")))(_name))
+
+
+def _gen_like(g):
+    case = _gen_one()(g)
+    if g.rng.random() < 0.4:
+        case["kw"]["dtype"] = g.rng.choice(["int64", "float64", "bool"])
+    if g.rng.random() < 0.3:
+        case["kw"]["shape"] = list(g.rng.choice([(2,), (2, 2), ()]))
+    return case
+
+
+def _like_kw(kw):
+    out = kwget(kw, "dtype")
+    if "shape" in kw:
+        out["shape"] = tuple(kw["shape"])
+    return out
+
+
+for _name in ("ones_like", "zeros_like"):
+    mirror(_name, _gen_like,
+           (lambda n: lambda ns, ops, kw: getattr(ns, n)(ops[0], **_like_kw(kw)))(_name))
+
+mirror("common_type", _gen_two,
+       lambda ns, ops, kw: numpy.dtype(ns.common_type(*[o for o in ops if hasattr(o, "dtype")])),
+       result="dtype")
+mirror("result_type", _gen_two, lambda ns, ops, kw: numpy.dtype(ns.result_type(*ops)),
+       result="dtype")
+
+
+def _gen_apply_along(g):
+    shape = nd_shape(g, mindim=1)
+    return {"operands": [g.poly(shape=shape)],
+            "kw": {"axis": axis_of(g, len(shape)), "func": g.rng.choice(["sum", "cumsum", "rev"])}}
+
+
+def _func1d(ns, name):
+    if name == "sum":
+        return lambda x: ns.sum(x)
+    if name == "cumsum":
+        return lambda x: ns.cumsum(x)
+    return lambda x: x[::-1]
+
+
+mirror("apply_along_axis", _gen_apply_along,
+       lambda ns, ops, kw: ns.apply_along_axis(_func1d(ns, kw["func"]), kw["axis"], ops[0]))
+
+
+def _gen_apply_over(g):
+    shape = nd_shape(g, mindim=1)
+    ndim = len(shape)
+    return {"operands": [g.poly(shape=shape)],
+            "kw": {"axes": g.rng.sample(range(ndim), g.rng.randint(1, ndim))}}
+
+
+mirror("apply_over_axes", _gen_apply_over,
+       lambda ns, ops, kw: ns.apply_over_axes(ns.sum, ops[0], kw["axes"]))
+
+
+def _gen_power(g):
+    base = nd_shape(g)
+    a = g.poly(shape=base, kind="int")
+    eshape = g.compatible_shape(base)
+    data = G.nested_map(lambda v: abs(v) % 4, g.array_data(eshape, "int"))
+    exp = {"k": "arr", "data": data, "dtype": "int64", "shape": list(eshape), "layout": "C"} \
+        if eshape else {"k": "py", "v": g.rng.choice([0, 1, 2, 3])}
+    return {"operands": [a, exp], "kw": {}}
+
+
+mirror("power", _gen_power, lambda ns, ops, kw: ns.power(ops[0], ops[1]))
+
+
+def _gen_copyto(g):
+    base = nd_shape(g)
+    kind = g.rng.choice(["int", "float"])
+    kw = {}
+    if g.rng.random() < 0.4:
+        kw["where"] = g.array_data(base, "bool", zero_prob=0.0)
+    return {"operands": [g.poly(shape=base, kind=kind, allow_views=False),
+                         g.poly(shape=g.compatible_shape(base), kind=kind)], "kw": kw}
+
+
+def _copyto_call(ns, ops, kw):
+    dst = ops[0].copy()
+    extra = {}
+    if "where" in kw:
+        extra["where"] = numpy.array(kw["where"], dtype=bool)
+    ns.copyto(dst, ops[1], **extra)
+    return dst
+
+
+mirror("copyto", _gen_copyto, _copyto_call)
+
+GROUP_MIRROR = ("mirror",)
